@@ -422,6 +422,37 @@ VecL gen_start_vector(const WorldSpec& w, const MatL& A, int vclass, uint64_t vs
         case V_HUGE:
             v *= cld(w.scalar == S_FLOAT ? 1e+12L : 1e+100L);
             break;
+        case V_WARM:
+        {
+            // continuation / warm start: eigenvector of a real eigenvalue computed densely, plus small noise
+            const ld noise = std::pow(10.0L, urand(r, -12.0L, -6.0L));
+            VecL x;
+            bool ok = false;
+            if (cplx || !family_is_general(w.family))
+            {
+                Eigen::SelfAdjointEigenSolver<MatL> es(A);
+                const long j = (long) r.below((uint64_t) n);
+                x = es.eigenvectors().col(j);
+                ok = true;
+            }
+            else
+            {
+                RMatL R = A.real();
+                Eigen::EigenSolver<RMatL> es(R, true);
+                for (long j = 0; j < n && !ok; j++)
+                    if (es.eigenvalues()[j].imag() == 0.0L)
+                    {
+                        x = es.eigenvectors().col(j);
+                        ok = true;
+                    }
+            }
+            if (ok && x.norm() > 0)
+            {
+                if (!cplx) for (long i = 0; i < n; i++) x[i] = cld(x[i].real(), 0.0L);
+                v = x / cld(x.norm()) + v * cld(noise);
+            }
+            break;
+        }
         case V_COORD:
         {
             long j = (long) r.below((uint64_t) n);
